@@ -570,8 +570,17 @@ fn drive_connection(
                 return false;
             }
             Ok(_) => continue,
-            Err(ref e) if would_block(e) => return false,
-            Err(ref e) if interrupted(e) => return drive_connection(conn, wbuf, msgs),
+            // Nothing of `buf` was written: put it back so it is sent first on the next attempt,
+            // instead of dropping it (which would lose a message or, for the remainder of a
+            // partially written message, tear the frame).
+            Err(ref e) if would_block(e) => {
+                wbuf.replace(buf);
+                return false;
+            }
+            Err(ref e) if interrupted(e) => {
+                wbuf.replace(buf);
+                return drive_connection(conn, wbuf, msgs);
+            }
             Err(e) => {
                 error!(?conn, error = %e, "write failed");
                 return true;
